@@ -268,6 +268,8 @@ def storage_tag(entity) -> str:
         return "[concatenated]"
     if "Concatenator" in mro:
         return "[concatenator]"
+    if "CommentsData" in mro:
+        return "[comments]"  # the writer serialises every dict of a CommentsData through its {"Comments": ...} wrapper
     return ""
 
 
@@ -642,7 +644,8 @@ def judge(history, obs) -> list:  # noqa: C901  pylint: disable=too-many-branche
         if judged_assigned and not matches(s["expected"], reop.get(attr)):
             if s["is_none"] and attr in raw and raw[attr] in (None, s.get("before")) and attr not in KEY_MAP:
                 # one mechanism for every scalar of an attribute map: None is skipped by the writer, the old attribute stays
-                viol.append(("reader-sees-assigned", "attribute-map-scalar=None:old-value-left-on-file", dict(detail, attribute=f"{s['defining']}.{attr}")))
+                mode = "old-value-left-on-file" if raw[attr] is not None else "absent-on-file-read-as-default"
+                viol.append(("reader-sees-assigned", f"attribute-map-scalar=None:{mode}", dict(detail, attribute=f"{s['defining']}.{attr}")))
             else:
                 viol.append(("reader-sees-assigned", wit(s), detail))
         elif live.get(attr) != reop.get(attr):
